@@ -196,6 +196,23 @@ func normalise(s string) string {
 			s = strings.ReplaceAll(s, kv[0], kv[1])
 		}
 	}
+	// "Position:<digits>" (a token.Pos field printed by %#v): positions depend on the order in which
+	// go/packages' parser goroutines added files to the shared FileSet
+	for {
+		i := strings.Index(s, "Position:")
+		if i < 0 {
+			break
+		}
+		j := i + len("Position:")
+		k := j
+		for k < len(s) && s[k] >= '0' && s[k] <= '9' {
+			k++
+		}
+		if k == j {
+			break
+		}
+		s = s[:i] + "Pos#" + s[k:]
+	}
 	if !strings.ContainsAny(s, "|@") {
 		return s
 	}
